@@ -21,7 +21,8 @@ LEVEL = "model_checking"
 RULE = ("all sequences of <= N terminals over the kind alphabet (input size x "
         "output size x read-write x FMMU/direct), plus large single "
         "terminals, an Aerotech-style terminal and 1-3 sync groups on one "
-        "master; non-trivial = the group was accepted and has at least one "
+        "master, and terminals shared by a writing and a reading device; "
+        "non-trivial = the group was accepted and has at least one "
         "region; distinct = distinct terminal sequence")
 
 IN, OUT = SyncManager.IN, SyncManager.OUT
@@ -78,9 +79,10 @@ def required(seq):
 
 
 def run_case(case, res):
-    seq, ngroups = case
+    seq, ngroups, *rest = case
+    split = rest[0] if rest else 0
     res.count("evaluations")
-    jcase = dict(seq=seq, groups=ngroups)
+    jcase = dict(seq=seq, groups=ngroups, split=split)
 
     def bad(exp, seen, what, sig=None):
         res.violation(jcase, exp, seen, sig=core.digest([sig or what]),
@@ -100,7 +102,13 @@ def run_case(case, res):
                                    station=100 + n + 50 * g)
                 terms.append(t)
             dev = Dev({t: s[2] for t, s in zip(terms, seq)})
-            sg = SyncGroup(w.ec, [dev])
+            devs = [dev]
+            if split:
+                # a second device that only reads the same terminals: a
+                # terminal is written if ANY device writes it
+                reader = Dev({t: False for t in terms})
+                devs = [dev, reader] if split == 1 else [reader, dev]
+            sg = SyncGroup(w.ec, devs)
             try:
                 sg.allocate()
             except Exception as e:
@@ -266,6 +274,10 @@ def cases(ctx):
     for n in (1, 2) if ctx.quick else (1, 2, 3):
         for seq in itertools.product(ks, repeat=n):
             out.append((seq, 1))
+            if n <= 2 and any(k[2] and k[1] for k in seq) and \
+                    (not ctx.quick or n == 1 or seq[0][:2] == seq[1][:2]):
+                out.append((seq, 1, 1))
+                out.append((seq, 1, 2))
     # large single terminals
     for sz in (2, 200, 1400, 1472):
         for rw in (False, True):
@@ -326,5 +338,5 @@ def replay(ctx, rep):
     res = core.Result()
     c = rep["case"]
     seq = tuple(tuple(s) for s in c["seq"])
-    run_case((seq, c["groups"]), res)
+    run_case((seq, c["groups"], c.get("split", 0)), res)
     return res.violations
